@@ -297,6 +297,8 @@ def switch_clause(src, name, func_slice, case_label, stop_labels=None):
                 if depth == 0:
                     break
                 depth -= 1
+                if depth == 0 and ch == "}":
+                    seen_stmt = True  # a braced clause body `case X: { ... }` is a complete statement
             elif depth == 0 and ch == ";":
                 seen_stmt = True
             elif depth == 0 and seen_stmt and re.match(r"(case\s|default\s*:)", text[i:i + 12]) \
